@@ -55,6 +55,7 @@ type FuncSpec struct {
 	MayPanic   bool
 	TypedPtrs  bool // assume distinct instances of one struct type never overlap
 	WFHeap     bool     // assume that every reference stored in a freshly introduced heap component is allocated
+	NamedInv   bool     // closed quantified macro bodies are named by boolean constants (one per invariant and state)
 	Pathwise   bool     // postconditions are checked at every return separately instead of once on the merged exit state
 	Reveal     []string // opaque spec functions whose definition this function's proof may use
 	AllocFresh bool // results are freshly allocated
@@ -316,6 +317,8 @@ func ParseFile(path, defaultPkg string) (*File, error) {
 				cur.WFHeap = true
 			case "pathwise":
 				cur.Pathwise = true
+			case "namedinv":
+				cur.NamedInv = true
 			case "reveal":
 				cur.Reveal = append(cur.Reveal, strings.Fields(strings.ReplaceAll(rest, ",", " "))...)
 			case "typedptrs":
